@@ -92,8 +92,9 @@ type Parsed struct {
 
 // Verdict classes of the lenient parser.
 type Reject struct {
-	Listed bool // a reason the property lists: out of bounds, overflow, disagreement with the section table
-	Reason string
+	Listed  bool // a reason the property lists: out of bounds, overflow, disagreement with the section table
+	Reason  string
+	content bool
 }
 
 func (r *Reject) Error() string { return r.Reason }
@@ -147,7 +148,7 @@ func (c *cursor) str(name string, major int) ([]byte, *Reject) {
 		return nil, rj
 	}
 	if n > uint64(c.end-c.pos) {
-		return nil, other("%s: declared length %d exceeds the %d bytes available", name, n, c.end-c.pos)
+		return nil, listed("%s: declared length %d exceeds the %d bytes available", name, n, c.end-c.pos)
 	}
 	s := c.b[c.pos : c.pos+int(n)]
 	c.pos += int(n)
@@ -406,6 +407,23 @@ func (p *Parsed) ResponsesSection() Section { return p.Sections[len(p.Sections)-
 // ResponseAt parses the response item that an index location designates. It
 // must be exactly `[ bstr(header map), bstr(payload) ]` filling the location.
 func (p *Parsed) ResponseAt(b []byte, l Loc, fields *[]Field, strict *[]string) (Response, *Reject) {
+	r, rj := p.responseAt(b, l, fields, strict)
+	if rj != nil && !rj.Listed && !rj.content {
+		// the index location does not hold exactly one [headers, payload] item:
+		// the index entry disagrees with what is in the responses section
+		rj = listed("index location (offset %d, length %d) does not delimit one response: %s", l.Off, l.Len, rj.Reason)
+	}
+	return r, rj
+}
+
+// contentReject marks a rejection that is about the header fields' content
+// rules (duplicate / upper-case names, pseudo headers, status syntax), where
+// the reference and a reader may legitimately differ in strictness.
+func contentReject(format string, a ...interface{}) *Reject {
+	return &Reject{Reason: fmt.Sprintf(format, a...), content: true}
+}
+
+func (p *Parsed) responseAt(b []byte, l Loc, fields *[]Field, strict *[]string) (Response, *Reject) {
 	rs := p.ResponsesSection()
 	start := rs.Off + int(l.Off)
 	sc := &cursor{b: b, pos: start, end: start + int(l.Len), fields: fields, strict: strict}
@@ -454,15 +472,15 @@ func (p *Parsed) ResponseAt(b []byte, l Loc, fields *[]Field, strict *[]string) 
 		prevKey = enc
 		name := string(k)
 		if seen[name] {
-			return r, other("response: duplicate header %q", name)
+			return r, contentReject("response: duplicate header %q", name)
 		}
 		seen[name] = true
 		if name != strings.ToLower(name) {
-			return r, other("response: header name %q not lower case", name)
+			return r, contentReject("response: header name %q not lower case", name)
 		}
 		if strings.HasPrefix(name, ":") {
 			if name != ":status" {
-				return r, other("response: unknown pseudo header %q", name)
+				return r, contentReject("response: unknown pseudo header %q", name)
 			}
 			r.Status = string(v)
 			continue
@@ -473,7 +491,7 @@ func (p *Parsed) ResponseAt(b []byte, l Loc, fields *[]Field, strict *[]string) 
 		hc.note("response: %d trailing bytes in header map", hc.end-hc.pos)
 	}
 	if len(r.Status) != 3 || strings.Trim(r.Status, "0123456789") != "" {
-		return r, other("response: bad or missing :status %q", r.Status)
+		return r, contentReject("response: bad or missing :status %q", r.Status)
 	}
 	body, rj := sc.str("response.body", 2)
 	if rj != nil {
@@ -630,6 +648,27 @@ func Build(version, primaryURL string, secs []RawSection) []byte {
 	var l [8]byte
 	binary.BigEndian.PutUint64(l[:], uint64(len(out)+9))
 	return refcbor.AppendBytes(out, l[:])
+}
+
+// EncodeIndex serializes an index section (canonical map).
+func EncodeIndex(version string, entries []IndexEntry) []byte {
+	var kvs []refcbor.KV
+	for _, e := range entries {
+		n := 2 * len(e.Locs)
+		var v []byte
+		if version == "b1" {
+			v = refcbor.AppendArray(v, n+1)
+			v = refcbor.AppendBytes(v, e.Variants)
+		} else {
+			v = refcbor.AppendArray(v, n)
+		}
+		for _, l := range e.Locs {
+			v = refcbor.AppendUint(v, l.Off)
+			v = refcbor.AppendUint(v, l.Len)
+		}
+		kvs = append(kvs, refcbor.KV{K: refcbor.AppendText(nil, e.URL), V: v})
+	}
+	return refcbor.AppendMap(nil, kvs)
 }
 
 // RawSections cuts a parsed bundle into its raw sections.
